@@ -1,7 +1,9 @@
 //! C20 — rec_lambda closures equal explicit recursion for every supported macro shape.
 //! Form I over PROGRAMS: the engine generates Rust source for every macro shape (captures = every
 //! sequence of length 0..=4 over {&, &mut}, 1..=4 arguments, return type present/absent, recursive calls
-//! with/without trailing comma, body templates), compiles the batch against the REAL macro with cargo,
+//! with/without trailing comma, body templates A-D: plain recursion, early returns, calls in loops and match
+//! arms, and argument expressions with effects - a recursive call nested in an argument of a recursive call,
+//! arguments that mutate / pop from the mutable captures), compiles the batch against the REAL macro with cargo,
 //! runs the produced binary and compares, per shape and per argument tuple, the return values and the
 //! final state of every capture of the macro version with the hand-written recursive `fn` that takes the
 //! captures explicitly and has the same body text.
@@ -414,15 +416,51 @@ fn main() {
     }
     let mut run = Run::new(&args, "lambda", "exploration");
     let thorough = args.tier == Tier::Thorough;
-    let bodies: Vec<char> = args.tier.pick(vec!['A'], vec!['A', 'B', 'C']);
-    let shapes: Vec<(usize, Shape)> = gen::enumerate(&bodies).into_iter().enumerate().collect();
-    let expected_programs = 31 * 4 * 2 * 2 * bodies.len();
+    // (body template, argument counts).  Quick: template A with every argument count, and template D
+    // (argument expressions with effects) with the two extreme argument counts - 1: the only argument carries
+    // the nested call and the mutation, 4: they sit in the first and in the last argument.
+    let all = vec![1usize, 2, 3, 4];
+    let plan: Vec<(char, Vec<usize>)> = args.tier.pick(
+        vec![('A', all.clone()), ('D', vec![1, 4])],
+        vec![('A', all.clone()), ('B', all.clone()), ('C', all.clone()), ('D', all.clone())],
+    );
+    let bodies: Vec<char> = plan.iter().map(|(b, _)| *b).collect();
+    let shapes: Vec<(usize, Shape)> = gen::enumerate(&plan).into_iter().enumerate().collect();
+    let expected_programs: usize = plan.iter().map(|(_, a)| 31 * a.len() * 2 * 2).sum();
     if shapes.len() != expected_programs {
         run.machinery_failure(&format!("enumerated {} shapes, expected {expected_programs}", shapes.len()));
     }
     let patterns: BTreeSet<Vec<bool>> = shapes.iter().map(|(_, s)| s.caps.clone()).collect();
     if patterns.len() != 31 {
         run.machinery_failure("the 31 capture patterns were not all enumerated");
+    }
+
+    // non-vacuity of the argument-effect family: every capture pattern with a mutable capture has, for each
+    // call syntax, a shape whose invocation text nests a recursive call inside an argument of a recursive
+    // call AND has an argument expression that mutates (push / pop / assignment) a mutable capture
+    let mut nested_arg_shapes = 0u64;
+    let mut mutating_arg_shapes = 0u64;
+    let mut covered: BTreeSet<(Vec<bool>, bool)> = BTreeSet::new();
+    for (_, sh) in &shapes {
+        let text = gen::macro_invocation(sh, "");
+        let (nested, mutating) = (gen::has_nested_call_argument(&text), gen::has_mutating_argument(&text));
+        nested_arg_shapes += nested as u64;
+        mutating_arg_shapes += mutating as u64;
+        if nested && mutating {
+            covered.insert((sh.caps.clone(), sh.trailing));
+        }
+        if mutating && sh.n_mut() == 0 {
+            run.machinery_failure(&format!("shape {} is reported to mutate a capture in an argument but has no mutable capture", sh.descriptor()));
+        }
+    }
+    for caps in patterns.iter().filter(|c| c.contains(&true)) {
+        for trailing in [false, true] {
+            if !covered.contains(&(caps.clone(), trailing)) {
+                run.machinery_failure(&format!(
+                    "capture pattern {caps:?}, trailing comma {trailing}: no shape has a recursive call nested in an argument together with an argument that mutates a mutable capture"
+                ));
+            }
+        }
     }
 
     let pkg = Pkg::new(args.tier.name());
@@ -606,12 +644,16 @@ fn main() {
     run.cov("shapes_run_by_capture_count_0_to_4", json!(per_ncaps.to_vec()));
     run.cov("capture_patterns", patterns.len() as u64);
     run.cov("body_templates", json!(bodies.iter().map(|c| c.to_string()).collect::<Vec<_>>()));
+    run.cov("body_templates_with_argument_counts", json!(plan.iter().map(|(b, a)| json!({"body": b.to_string(), "arguments": a})).collect::<Vec<_>>()));
+    run.cov("shapes_with_recursive_call_nested_in_an_argument", nested_arg_shapes);
+    run.cov("shapes_with_argument_mutating_a_mutable_capture", mutating_arg_shapes);
+    run.cov("capture_pattern_x_call_syntax_with_both", covered.len() as u64);
     run.cov("argument_tuples_per_arity_1_to_4", json!(grids[1..].iter().map(|g| g.len()).collect::<Vec<_>>()));
     run.cov("exhaustive", true);
     run.cov("crate_under_test", CRATE_PATH);
     run.cov(
         "rule",
-        "every shape = (capture sequence of length 0..=4 over {&,&mut}, 1..=4 arguments, return type i64/none, recursive calls plain/trailing comma, body template) is emitted as a rec_lambda! invocation and as a hand-written recursive fn with the same body, compiled in one batch against the real macro and run on every argument tuple of a fixed grid (closure created once, called twice); an evaluation = one (shape, tuple) comparison of (r1, r2, every capture). A shape is non-trivial when the reference's results differ between at least two tuples of the grid (measured); shapes with neither return value nor mutable capture show only termination and are excluded",
+        "every shape = (capture sequence of length 0..=4 over {&,&mut}, 1..=4 arguments, return type i64/none, recursive calls plain/trailing comma, body template; the templates and the argument counts each is emitted with are listed in body_templates_with_argument_counts: A two calls ordered by a branch, B early returns, C calls in a loop / match arm and a nested call, D argument expressions with effects — a recursive call nested in an argument of a recursive call (as a sub-expression, or as a statement of a block argument when nothing is returned), block arguments that mutate every mutable capture before yielding their value, and an argument computed from a value popped off a mutable Vec capture; D occurs in both tiers for every capture pattern, both return forms and both call syntaxes) is emitted as a rec_lambda! invocation and as a hand-written recursive fn with the same body, compiled in one batch against the real macro and run on every argument tuple of a fixed grid (closure created once, called twice); an evaluation = one (shape, tuple) comparison of (r1, r2, every capture). A shape is non-trivial when the reference's results differ between at least two tuples of the grid (measured); shapes with neither return value nor mutable capture show only termination and are excluded",
     );
     run.assume("a shape's compile verdict is the verdict of cargo/rustc of the installed tool chain on the generated program; the generated package is built with opt-level 0");
 
